@@ -84,6 +84,43 @@ theorem assemble_duplicate (ext : Ext) (l : List SplitPacket)
     have h := (numbersFrom_spec _ 0 hn).1
     exact h.perm (List.mergeSort_perm l _) (fun h => Ne.symm h)
 
+/-- `sameResponse main ·` relates only packets that are of one response with each other -/
+theorem sameResponse_trans_false (m p q : SplitPacket) (hp : sameResponse m p = true) (hq : sameResponse m q = true) :
+    sameResponse p q = true := by
+  simp only [sameResponse, Bool.and_eq_true, beq_iff_eq] at *
+  obtain ⟨⟨a, b⟩, c⟩ := hp
+  obtain ⟨⟨a', b'⟩, c'⟩ := hq
+  exact ⟨⟨by rw [a', a], by rw [b', b]⟩, by rw [c', c]⟩
+
+theorem sameResponse_refl (m : SplitPacket) : sameResponse m m = true := by
+  simp [sameResponse]
+
+/-- a set of fragments containing two packets of different responses is rejected, whatever the order -/
+theorem assemble_foreign (ext : Ext) (l : List SplitPacket) (p q : SplitPacket) (hp : p ∈ l) (hq : q ∈ l)
+    (hne : sameResponse p q = false) : assemble ext (sortChunks l) = .err .packetBad := by
+  have hperm : (sortChunks l).Perm l := List.mergeSort_perm l _
+  have hp' : p ∈ sortChunks l := hperm.mem_iff.mpr hp
+  have hq' : q ∈ sortChunks l := hperm.mem_iff.mpr hq
+  unfold assemble
+  split
+  · rfl
+  · split
+    · rfl
+    · rename_i main others heq
+      split
+      · rename_i hall
+        exfalso
+        rw [heq] at hp' hq'
+        have hmem : ∀ x, x ∈ main :: others → sameResponse main x = true := by
+          intro x hx
+          rcases List.mem_cons.mp hx with rfl | hx
+          · exact sameResponse_refl _
+          · exact List.all_eq_true.mp hall x hx
+        have := sameResponse_trans_false main p q (hmem p hp') (hmem q hq')
+        rw [this] at hne
+        cases hne
+      · rfl
+
 theorem enumFrom_sorted {α : Type} (mk : Nat → α → SplitPacket) (hnum : ∀ i c, (mk i c).number = i)
     (cs : List α) (i : Nat) :
     ((Spec.enumFrom i cs).map fun (p : Nat × α) => mk p.1 p.2).Pairwise (fun a b => decide (a.number ≤ b.number) = true)
